@@ -173,3 +173,81 @@ def normalize(t, env=None):
     if t[0] == "cast":
         return normalize(t[2], env)
     return t
+
+
+def slice_of(t, env, facts, word=64):
+    """(X, a, b, c) with  t == ((X >> a) mod 2^(b-a)) << c  for an unsigned `word`-bit quantity X: the bit range [a, b) of X
+    placed at bit c.  Understands x >> k, x / 2^k, x << k, x * 2^k, x % 2^k, x - x % 2^k and (x / 2^k) * 2^j (power-of-two
+    constants through env, exponents compared with the affine prover under `facts`).  Everything else is a base X with
+    the full range.  None when a comparison of exponents cannot be decided."""
+    from . import affine
+    nonneg = lambda e: affine.prove_nonneg(e, facts)
+    W = I(word)
+
+    def shl(sl, k):
+        X, a, b, c = sl
+        c2 = sym.add(c, k)
+        top = sym.add(c2, sym.sub(b, a))
+        if nonneg(sym.sub(W, top)):
+            return X, a, b, c2
+        if nonneg(sym.sub(top, W)):
+            return X, a, sym.sub(sym.add(a, W), c2), c2       # the bits pushed beyond the word are lost
+        return None
+
+    def shr(sl, k):
+        X, a, b, c = sl
+        if nonneg(sym.sub(c, k)):
+            return X, a, b, sym.sub(c, k)
+        if nonneg(sym.sub(k, c)):
+            return X, sym.add(a, sym.sub(k, c)), b, ZERO
+        return None
+
+    def rec(t):
+        while t[0] == "cast":
+            t = t[2]
+        if t[0] == "op" and t[1] in (">>", "/"):
+            k = t[3] if t[1] == ">>" else pow2_exp(t[3], env)
+            sl = rec(t[2]) if k is not None else None
+            return shr(sl, k) if sl is not None else ((t, ZERO, W, ZERO) if k is None else None)
+        if t[0] == "op" and t[1] == "<<":
+            sl = rec(t[2])
+            return shl(sl, t[3]) if sl is not None else None
+        if t[0] == "op" and t[1] == "%":
+            k = pow2_exp(t[3], env)
+            if k is None:
+                return t, ZERO, W, ZERO
+            sl = rec(t[2])
+            if sl is None or sl[3] != ZERO:
+                return None
+            X, a, b, c = sl
+            if nonneg(sym.sub(sym.sub(b, a), k)):
+                return X, a, sym.add(a, k), ZERO
+            if nonneg(sym.sub(k, sym.sub(b, a))):
+                return sl
+            return None
+        if t[0] == "poly":
+            items = sym.poly_items(t)
+            mods = [a for a in sym.atoms_top(t) if a[0] == "op" and a[1] == "%"]
+            if len(mods) == 1 and sym.add(t, mods[0]) == mods[0][2]:
+                k = pow2_exp(mods[0][3], env)           # y - y % 2^k == (y >> k) << k
+                sl = rec(mods[0][2]) if k is not None else None
+                if sl is not None:
+                    sl = shr(sl, k)
+                    return shl(sl, k) if sl is not None else None
+            if len(items) == 1:
+                mono, coef = items[0]
+                e = _ilog2(coef) if coef > 0 else None
+                rest = []
+                if e is not None:
+                    expo = I(e)
+                    for a in mono:
+                        ea = pow2_exp(a, env)
+                        if ea is not None:
+                            expo = sym.add(expo, ea)
+                        else:
+                            rest.append(a)
+                    if len(rest) == 1 and (expo != ZERO or rest[0] != t):
+                        sl = rec(rest[0])
+                        return shl(sl, expo) if sl is not None else None
+        return t, ZERO, W, ZERO
+    return rec(t)
